@@ -21,6 +21,7 @@ type knowledge struct {
 	sSCID   protocol.ConnectionID // source connection ID of the server's latest long-header packet
 	hasS    bool
 	ok      bool
+	toSrv   bool // the packet is for the server: the roles of the IDs are swapped and it is sealed as a client would
 }
 
 func cidTxt(b []byte) string { return "x" + hex.EncodeToString(b) }
@@ -119,7 +120,11 @@ func craftLong(k knowledge, r *vh.Rand, typ protocol.PacketType, scid, keys, pay
 	if keys != "valid" {
 		keyCID = randCID(r, 8)
 	}
-	sealer, _ := handshake.NewInitialAEAD(keyCID, protocol.PerspectiveServer, v)
+	pers := protocol.PerspectiveServer
+	if k.toSrv {
+		pers = protocol.PerspectiveClient
+	}
+	sealer, _ := handshake.NewInitialAEAD(keyCID, pers, v)
 	var pl []byte
 	var err error
 	if payload == "close" {
